@@ -142,6 +142,7 @@ type Interp struct {
 	extraFuncs []*FuncV
 	symStrHooks map[string]symStrHook
 	xWanted    int
+	fmtDepth   int
 	xPerHarness map[string]int
 	xsamples   []*XSample
 }
